@@ -474,11 +474,11 @@ def r09e(ck, prog):
 def run(ck, progs):
     describe(ck)
     for cfg, prog in progs.items():
-        r09a(ck, prog)
-        r09b(ck, prog)
-        r09c(ck, prog)
-        r09d(ck, prog)
-        r09e(ck, prog)
+        ck.attempt(r09a, ck, prog)
+        ck.attempt(r09b, ck, prog)
+        ck.attempt(r09c, ck, prog)
+        ck.attempt(r09d, ck, prog)
+        ck.attempt(r09e, ck, prog)
     return ("Static rules over the resolved AST of aln_param.c, run_kalign.c, parameters.c and kalign.h: "
             "(guard variable, source variable, target field) triples of the three overrides; the (sequence kind x "
             "type constant) table of both switch statements with fallthrough and default followed; the ordered "
